@@ -21,7 +21,8 @@ LEVEL = "exploration"
 RULE = (
     "per generated valid input the complete matrix country {us,jp,es,ie,generic} x method {each accepted, none} x "
     "language {each language the country ships a template for, none} x filter {none, from, to, from+to} (136 tuples) is "
-    "run through the real CLI; inputs rotate over shapes: single asset, multi asset, sparse years, an asset fully sold, an "
+    "run through the real CLI, plus 8 runs per input with the method given as an [accounting_methods] schedule in the config "
+    "(changes of method at years the data spans, between fifo and the heap-based methods) x {us, generic} x filter; inputs rotate over shapes: single asset, multi asset, sparse years, an asset fully sold, an "
     "asset with income only, all 14 transaction types; windows are drawn mid-year, on event dates, right after an asset's "
     "last event of a year, empty, before an asset's first acquisition, and between transactions whose own-date order is the "
     "reverse of their instant order (mixed UTC offsets around new year); every tuple draws its own window. Oracle: exit 0, no traceback, exactly the files <prefix><method|mixed>_<report>.ods "
@@ -33,8 +34,8 @@ ASSUMPTIONS = [
     "KF2 (rp2_jp without -g: default language ja has no templates) and KF3 (rp2_jp refuses -f together with -t) are recorded findings, keyed by country, options and error message",
 ]
 SETTINGS: Dict[str, Dict[str, Any]] = {
-    "quick": {"inputs": 3, "budget_s": 75, "minimums": {"cli_runs": 380, "nontrivial": 300, "inverted_cut_runs": 20}, "required_tags": {"tag_country": list(COUNTRIES), "tag_filter": ["none", "from", "to", "from+to"]}},
-    "thorough": {"inputs": 32, "budget_s": 480, "minimums": {"cli_runs": 3800, "nontrivial": 3200, "inverted_cut_runs": 200}, "required_tags": {"tag_country": list(COUNTRIES), "tag_filter": ["none", "from", "to", "from+to"]}},
+    "quick": {"inputs": 3, "budget_s": 75, "minimums": {"cli_runs": 400, "nontrivial": 300, "inverted_cut_runs": 20, "runs_with_config_method_schedule": 20}, "required_tags": {"tag_country": list(COUNTRIES), "tag_filter": ["none", "from", "to", "from+to"]}},
+    "thorough": {"inputs": 32, "budget_s": 480, "minimums": {"cli_runs": 4000, "nontrivial": 3200, "inverted_cut_runs": 200, "runs_with_config_method_schedule": 220}, "required_tags": {"tag_country": list(COUNTRIES), "tag_filter": ["none", "from", "to", "from+to"]}},
 }
 SHAPES = ["all-types", "inverted-dates", "multi-asset-sparse", "fully-sold+income-only", "single-asset", "multi-asset", "sparse-years", "mixed-offsets"]
 
@@ -125,6 +126,25 @@ def windows_for(rng: Any, hists: Dict[str, Dict[str, Any]]) -> Dict[str, Tuple[O
     return {"none": (None, None), "from": (f.isoformat(), None), "to": (None, t.isoformat()), "from+to": (f2.isoformat(), t2.isoformat())}
 
 
+def method_schedule(rng: Any, hists: Dict[str, Dict[str, Any]]) -> Dict[int, str]:
+    """[accounting_methods] schedule starting at 1970 that changes method at 1-3 of the years the data spans (new years of
+    the data first), alternating between the chronological method and the heap-based ones."""
+    years = sorted({parse_ts(r["ts"]).year for h in hists.values() for r in h["rows"]} | {parse_ts(r["ts"]).astimezone(__import__("datetime").timezone.utc).year for h in hists.values() for r in h["rows"]})
+    switch_years = [y for y in years if y > years[0]] or [years[0] + 1]
+    rng.shuffle(switch_years)
+    chosen = sorted(switch_years[: rng.randint(1, min(3, len(switch_years)))])
+    first = rng.choice(("fifo", "fifo", "hifo", "lifo", "lofo"))
+    sched = {1970: first}
+    previous = first
+    for y in chosen:
+        options = [m for m in ("fifo", "hifo", "lifo", "lofo") if m != previous]
+        # prefer a change between fifo and a heap-based method
+        nxt = "fifo" if previous != "fifo" and rng.random() < 0.6 else rng.choice([m for m in options if m != "fifo"] or options)
+        sched[y] = nxt
+        previous = nxt
+    return sched
+
+
 def expected_files(country: str, method: Optional[str], prefix: str, mixed: bool = False) -> List[str]:
     word = "mixed" if mixed else (method or "fifo")
     return sorted(f"{prefix}{word}_{name}.ods" for name in COUNTRY_REPORTS[country])
@@ -159,7 +179,7 @@ def _inverted_cut(hists: Dict[str, Any], window: Tuple[Optional[str], Optional[s
     return False
 
 
-def _run_tuple(ctx: Any, ws: Workspace, hists: Dict[str, Any], shape: str, tup: Tuple[str, Optional[str], Optional[str], str], window: Tuple[Optional[str], Optional[str]], prefix: str, input_seed: Any) -> None:
+def _run_tuple(ctx: Any, ws: Workspace, hists: Dict[str, Any], shape: str, tup: Tuple[str, Optional[str], Optional[str], str], window: Tuple[Optional[str], Optional[str]], prefix: str, input_seed: Any, ini_methods: Optional[Dict[int, str]] = None) -> None:
     country, method, language, filt = tup
     args: List[str] = []
     if method:
@@ -178,7 +198,9 @@ def _run_tuple(ctx: Any, ws: Workspace, hists: Dict[str, Any], shape: str, tup: 
     ctx.tag("tag_country", country)
     ctx.tag("tag_filter", filt)
     ctx.tag("tag_shape", shape)
-    case = {"shape": shape, "input_seed": input_seed, "hists": hists, "tuple": list(tup), "window": list(window), "prefix": prefix}
+    case = {"shape": shape, "input_seed": input_seed, "hists": hists, "tuple": list(tup), "window": list(window), "prefix": prefix, "ini_methods": {str(k): v for k, v in (ini_methods or {}).items()}}
+    if ini_methods:
+        ctx.count("runs_with_config_method_schedule")
     if _inverted_cut(hists, window):
         ctx.count("inverted_cut_runs")
     if filt != "none" or method not in (None, "fifo") or language is not None:
@@ -190,7 +212,9 @@ def _run_tuple(ctx: Any, ws: Workspace, hists: Dict[str, Any], shape: str, tup: 
         tail = [line for line in res.stderr.strip().splitlines() if line.strip()][-1:] or [""]
         problems.append(("totality.non-zero-exit", {"exit": res.exit, "error": tail[0][:300]}))
     else:
-        expected = expected_files(country, method, prefix)
+        expected = expected_files(country, method, prefix, mixed=bool(ini_methods) and len(ini_methods) > 1)
+        if ini_methods and len(ini_methods) == 1:
+            expected = expected_files(country, next(iter(ini_methods.values())), prefix)
         if res.files != expected:
             problems.append(("totality.output-files", {"files": res.files, "expected": expected}))
         if "Traceback (most recent call last)" in res.stderr:
@@ -205,7 +229,9 @@ def _run_tuple(ctx: Any, ws: Workspace, hists: Dict[str, Any], shape: str, tup: 
 def run_shard(ctx: Any) -> None:
     settings = SETTINGS[ctx.tier]
     tuples = matrix()
-    work = [(i, k) for i in range(settings["inputs"]) for k in range(len(tuples))]
+    # per input: the whole option matrix, then 8 more runs with the method given as an [accounting_methods] schedule in the
+    # config (us and generic accept several methods) x each filter kind; those are numbered len(tuples) .. len(tuples) + 7
+    work = [(i, k) for i in range(settings["inputs"]) for k in range(len(tuples) + 8)]
     mine = work[ctx.shard :: ctx.nshards]
     current: Optional[int] = None
     ws: Optional[Workspace] = None
@@ -226,6 +252,19 @@ def run_shard(ctx: Any) -> None:
                 ws = Workspace(ctx.scratch, f"in{i}")
                 ws.write(hists)
                 current = i
+            if k >= len(tuples):
+                j = k - len(tuples)
+                tup = (("us", "generic")[j % 2], None, None, ("none", "from", "to", "from+to")[j // 2])
+                srng = ctx.rng("schedule", i, j)
+                sched = method_schedule(srng, hists)
+                ws_s = Workspace(ctx.scratch, f"in{i}-sched{j}")
+                try:
+                    ws_s.write(hists, accounting_methods=sched)
+                    windows = windows_for(ctx.rng("window", i, k), hists)
+                    _run_tuple(ctx, ws_s, hists, shape, tup, windows[tup[3]], "", i, ini_methods=sched)
+                finally:
+                    ws_s.cleanup()
+                continue
             tup = tuples[k]
             prefix = "pfx_" if (i + k) % 7 == 0 else ""
             assert ws is not None
@@ -264,8 +303,9 @@ def _probe_known(ctx: Any) -> None:
 def replay(ctx: Any, case: Dict[str, Any]) -> None:
     ws = Workspace(ctx.scratch, "replay")
     try:
-        ws.write(case["hists"])
-        _run_tuple(ctx, ws, case["hists"], case["shape"], tuple(case["tuple"]), tuple(case["window"]), case["prefix"], case["input_seed"])
+        ini_methods = {int(k): v for k, v in (case.get("ini_methods") or {}).items()} or None
+        ws.write(case["hists"], accounting_methods=ini_methods)
+        _run_tuple(ctx, ws, case["hists"], case["shape"], tuple(case["tuple"]), tuple(case["window"]), case["prefix"], case["input_seed"], ini_methods=ini_methods)
     finally:
         ws.cleanup()
 
